@@ -453,8 +453,10 @@ def compute_integral_ir(
             restrictions = [i.restriction for i in initial_terminals.values()]
             if not needs_facet_permutations:
                 needs_facet_permutations = (
-                    "+" in restrictions and "-" in restrictions
-                ) or is_mixed_dim
+                    ("+" in restrictions and "-" in restrictions)
+                    or is_mixed_dim
+                    or any(table.shape[0] > 1 for table in active_tables.values())
+                )
 
     return IntermediateIntegralIR(
         needs_facet_permutations=needs_facet_permutations,
